@@ -62,8 +62,40 @@ class Tables:
         self.castling = facts.table_u64("owlchess::zobrist::CASTLING")
         self.enpassant = facts.table_u64("owlchess::zobrist::ENPASSANT")
         self.move_side = facts.const_int("owlchess::zobrist::MOVE_SIDE")
-        self.ck = facts.table_u64("owlchess::zobrist::CASTLING_KINGSIDE")
-        self.cq = facts.table_u64("owlchess::zobrist::CASTLING_QUEENSIDE")
+        self.facts = facts
+        try:
+            self.ck = facts.table_u64("owlchess::zobrist::CASTLING_KINGSIDE")
+            self.cq = facts.table_u64("owlchess::zobrist::CASTLING_QUEENSIDE")
+        except KeyError:
+            self.ck = self.cq = None      # the deltas live in a table of another name/shape: read generically (const_table_value)
+
+    def const_table_value(self, e):
+        """Value of a read of a constant table of 64-bit words with constant indices (`T[i]`, `T[i][j]`), whatever the table is called."""
+        idx = []
+        while e[0] == "tbl":
+            if e[2][0] != "const":
+                return None
+            idx.append(e[2][1])
+            e = e[1]
+        if e[0] != "named" or not idx:
+            return None
+        idx.reverse()
+        c = self.facts.consts.get(e[1]) or {}
+        ty = self.facts.types[c["ty"]] if "ty" in c else None
+        dims = []
+        while ty is not None and ty.get("k") == "array":
+            dims.append(ty.get("len"))
+            ty = self.facts.types[ty["of"]] if isinstance(ty.get("of"), int) else None
+        if len(dims) != len(idx) or any(d is None for d in dims[1:]):
+            return None
+        try:
+            flat = self.facts.table_u64(e[1])
+        except KeyError:
+            return None
+        pos = 0
+        for i, d in zip(idx, [None] + dims[1:]):
+            pos = pos * (d if d is not None else 1) + i if d is not None else i
+        return flat[pos] if 0 <= pos < len(flat) else None
 
 
 class SimError(Exception):
@@ -226,11 +258,15 @@ class Sim:
                     toggle(st.hash_sym, ("CAST", x[1]))
                     return
                 raise SimError("castling key of %s" % show(x))
-            if tb == ("named", "owlchess::zobrist::CASTLING_KINGSIDE") and e[2][0] == "const":
+            if tb == ("named", "owlchess::zobrist::CASTLING_KINGSIDE") and e[2][0] == "const" and self.t.ck is not None:
                 st.hash_num ^= self.t.ck[e[2][1]]
                 return
-            if tb == ("named", "owlchess::zobrist::CASTLING_QUEENSIDE") and e[2][0] == "const":
+            if tb == ("named", "owlchess::zobrist::CASTLING_QUEENSIDE") and e[2][0] == "const" and self.t.cq is not None:
                 st.hash_num ^= self.t.cq[e[2][1]]
+                return
+            v = self.t.const_table_value(e)
+            if v is not None:
+                st.hash_num ^= v
                 return
         raise SimError("unknown hash term %s" % show(e))
 
